@@ -36,7 +36,8 @@ use crate::clock;
 
 type Msg = PsiHashMessage<TestNodeId, TestNodeInfo>;
 
-const UNIVERSE: usize = 4;
+/// Largest topic universe used (quick: 4, thorough: 5).
+const MAX_UNIVERSE: usize = 5;
 
 fn topic(i: usize) -> Topic {
     Topic::from(*Hash::digest(format!("c30 topic {i}")).as_bytes())
@@ -47,7 +48,7 @@ fn node(i: u8) -> VerifyingKey {
 }
 
 fn subset(mask: usize) -> Vec<usize> {
-    (0..UNIVERSE).filter(|i| mask & (1 << i) != 0).collect()
+    (0..MAX_UNIVERSE).filter(|i| mask & (1 << i) != 0).collect()
 }
 
 fn contains_window(hay: &[u8], needle: &[u8; 32]) -> bool {
@@ -198,7 +199,7 @@ async fn run_case(part: &mut Part, case: &Case, books: (&Book, &Book), stores: (
     let inter_mask = case.a_mask & case.b_mask;
     let expected: HashSet<Topic> = subset(inter_mask).into_iter().map(topic).collect();
     let to_idx = |ts: &HashSet<Topic>| -> Vec<String> {
-        let mut v: Vec<String> = ts.iter().map(|t| (0..UNIVERSE).find(|i| topic(*i) == *t).map(|i| i.to_string()).unwrap_or_else(|| "foreign".into())).collect();
+        let mut v: Vec<String> = ts.iter().map(|t| (0..MAX_UNIVERSE).find(|i| topic(*i) == *t).map(|i| i.to_string()).unwrap_or_else(|| "foreign".into())).collect();
         v.sort();
         v
     };
@@ -288,7 +289,7 @@ async fn run_case(part: &mut Part, case: &Case, books: (&Book, &Book), stores: (
         part.nontrivial += 1;
     }
     part.outcomes.insert(format!("inter={} restricted={} sent={}", subset(inter_mask).len(), case.restricted, sent_summary.join(",")));
-    part.states.insert(explorer::h64(&(case.a_mask, case.b_mask, case.book_idx % 64, case.restricted, case.own_reg)));
+    part.states.insert(explorer::h64(&(case.a_mask, case.b_mask, case.book_idx, case.restricted, case.own_reg)));
     if log.iter().any(|s| s.cbor.is_empty() || s.json.is_empty()) {
         part.machinery.push(format!("a protocol message could not be serialised for the wire check; {desc}"));
     }
@@ -309,7 +310,8 @@ pub fn run(mut rep: Report) -> i32 {
     clock::freeze(1_800_000_000);
     let thorough = rep.thorough();
     // topic-set menu for the three further nodes of an address book (masks over the universe)
-    let menu: Vec<usize> = if thorough { vec![0b0000, 0b0001, 0b0011, 0b1100] } else { vec![0b0001, 0b1100] };
+    let universe: usize = if thorough { 5 } else { 4 };
+    let menu: Vec<usize> = if thorough { vec![0b00000, 0b00001, 0b00011, 0b01100, 0b10000] } else { vec![0b0001, 0b1100] };
     let m = menu.len();
     let mut books: Vec<(Book, Book)> = vec![];
     for code in 0..m.pow(3) {
@@ -318,8 +320,8 @@ pub fn run(mut rep: Report) -> i32 {
         books.push((Book { others: [x, y, z] }, Book { others: [z, y, x] }));
     }
     rep.rule = format!(
-        "every pair of subsets of a {UNIVERSE}-topic universe (256) x {} address-book pairs (3 further nodes, topic sets from menu {:?}) x own topics registered in the own book (no/yes) x share_nodes_with_common_topics (off/on); non-trivial = intersection non-empty and a proper subset of both sides' sets",
-        books.len(), menu.iter().map(|m| subset(*m)).collect::<Vec<_>>()
+        "every pair of subsets of a {universe}-topic universe ({} pairs) x {} address-book pairs (3 further nodes, topic sets from menu {:?}) x own topics registered in the own book (no/yes) x share_nodes_with_common_topics (off/on); non-trivial = intersection non-empty and a proper subset of both sides' sets",
+        (1usize << universe) * (1usize << universe), books.len(), menu.iter().map(|m| subset(*m)).collect::<Vec<_>>()
     );
 
     let next = AtomicUsize::new(0);
@@ -344,8 +346,8 @@ pub fn run(mut rep: Report) -> i32 {
                                 return;
                             }
                         };
-                        for a_mask in 0..(1 << UNIVERSE) {
-                            for b_mask in 0..(1 << UNIVERSE) {
+                        for a_mask in 0..(1usize << universe) {
+                            for b_mask in 0..(1usize << universe) {
                                 for own_reg in [false, true] {
                                     for restricted in [false, true] {
                                         let case = Case { book_idx: b, a_mask, b_mask, own_reg, restricted };
